@@ -76,13 +76,119 @@ class Consumer(object):
         return e
 
 
-def consumers_in(eng, fi):
+class WrappedConsumer(Consumer):
+    """A call of an internal helper W whose body hands (expressions over) its own parameters to a record consumer -- seen from the call site.
+    arg(p) is the helper's argument expression with W's parameters replaced by the call-site arguments (the call-site nodes themselves, so that
+    reaching definitions in the caller keep working); inner_arg(p) is the expression inside W (for value-flow look-ups)."""
+    def __init__(self, fi, cfg, call, target, inner, wrapper, mapping):
+        self.fi, self.cfg, self.call, self.target = fi, cfg, call, target
+        self.b = inner.b
+        self.node = cfg.cfg_node(call)
+        self.inner, self.wrapper, self.mapping = inner, wrapper, mapping
+
+    def arg(self, pname):
+        from .common import rebuild
+        e = self.inner.arg(pname)
+        if e is None:
+            return None
+        m = self.mapping
+        return rebuild(e, lambda n: m.get(n.id) if isinstance(n, ast.Name) and isinstance(n.ctx, ast.Load) else None)
+
+    def inner_arg(self, pname):
+        return self.inner.arg(pname)
+
+
+def _free_names(e):
+    return set(s.id for s in ast.walk(e) if isinstance(s, ast.Name) and isinstance(s.ctx, ast.Load))
+
+
+def forwards_own_parameters(c, allow=("np", "numpy")):
+    """Every record argument of this consumer call is an expression over the enclosing function's own parameters (self.nx for the point number)."""
+    ps = set(c.fi.all_params)
+    for p in ("x", "rvec", "nsamples", "eval_num"):
+        a = c.arg(p)
+        if a is None:
+            continue
+        if p == "eval_num" and ekey(a).endswith(".nx"):
+            continue
+        if not (_free_names(a) - set(allow)) <= ps or not (_free_names(a) & ps):
+            return False
+    return True
+
+
+def wrapper_must_consume(eng, W, inner):
+    """Inside the helper, every path from the entry to a normal exit passes the consumer call -- except through `nsamples-parameter <= 0` (nothing was
+    evaluated) or isnan(residual parameter) (the value cannot be the best point)."""
+    from ..norm import atom_of, const_value
+    from ..dataflow import Flow
+    cfg = eng.cfg(W)
+    nsp = inner.arg("nsamples")
+    nsp = nsp.id if isinstance(nsp, ast.Name) else None
+    rvn = _free_names(inner.arg("rvec")) & set(W.all_params) if inner.arg("rvec") is not None else set()
+
+    def node_fn(n, s):
+        return ["-"] if n == inner.node else [s]
+
+    def edge_fn(a, b, e, s):
+        if s == "P" and cfg.kind(a) == "cond" and e["label"] in (True, False):
+            at = atom_of(cfg.ast_of(a), e["label"])
+            if nsp and at.op == "le" and ekey(at.lhs) == nsp and const_value(at.rhs) == 0:
+                return "-"
+            if nsp and at.op == "lt" and ekey(at.lhs) == nsp and const_value(at.rhs) == 1:
+                return "-"
+            if at.op == "truth" and "isnan" in ekey(at.lhs) and (rvn & _free_names(at.lhs)):
+                return "-"
+        return s
+
+    fl = Flow(cfg, "P", node_fn, edge_fn)
+    return "P" not in set(fl.states(cfg.exit))
+
+
+def wrapper_consumers(eng, fi):
+    cfg = eng.cfg(fi)
+    out = []
+    for ci in eng.calls_in(fi):
+        tg = eng.res.call_targets(fi, ci.node)
+        if len(tg) != 1:
+            continue
+        W, bound = tg[0]
+        if W.fid in CONSUMERS or W.fid == EVAL or W.is_lambda or W.fid == fi.fid:
+            continue
+        inner = [c for c in consumers_in(eng, W, wrappers=False) if forwards_own_parameters(c)]
+        if len(inner) != 1 or not wrapper_must_consume(eng, W, inner[0]):
+            continue
+        b = bind_call(ci.node, W, bound and W.is_method)
+        if b.errors or b.star is not None or b.kwstar is not None:
+            continue
+        mapping = {}
+        pos = list(W.posparams)
+        if bound and W.is_method and pos and isinstance(ci.node.func, ast.Attribute):
+            mapping[pos[0]] = ci.node.func.value
+        okm = True
+        for pn in W.all_params:
+            if pn in mapping:
+                continue
+            e = b.params.get(pn)
+            if e is None or isinstance(e, tuple):
+                e = W.defaults.get(pn)
+            if e is None:
+                okm = False
+                break
+            mapping[pn] = e
+        if okm:
+            out.append(WrappedConsumer(fi, cfg, ci.node, inner[0].target, inner[0], W, mapping))
+    return out
+
+
+def consumers_in(eng, fi, wrappers=True):
     cfg = eng.cfg(fi)
     out = []
     for ci in eng.calls_in(fi):
         for (t, bound) in eng.res.call_targets(fi, ci.node):
             if t.fid in CONSUMERS:
                 out.append(Consumer(fi, cfg, ci.node, t, bind_call(ci.node, t, bound and t.is_method)))
+    if wrappers:
+        out += wrapper_consumers(eng, fi)
     return out
 
 
@@ -93,6 +199,9 @@ def all_consumers(eng):
             t = eng.fn(fid)
             bound = any(b for (tt, b) in eng.res.call_targets(ci.caller, ci.node) if tt.fid == fid)
             out.append(Consumer(ci.caller, eng.cfg(ci.caller), ci.node, t, bind_call(ci.node, t, bound and t.is_method)))
+    for fi in list(eng.prog.functions.values()):
+        if not fi.is_lambda:
+            out += wrapper_consumers(eng, fi)
     return out
 
 
@@ -201,6 +310,17 @@ def rule_mean_over_samples_run(eng, rep, rule):
                         okc, how = True, "%s[:%s, :]" % (buf, cnt)
                     elif not isinstance(sl, ast.Slice):
                         okc, how = True, "a single sample row %s" % ekey(a)      # row 0 / row i of range(1, counter): checked by the caller's loop bound
+                if not okc and is_internal and isinstance(a, ast.Name) and a.id == buf and len(ci.targets) == 1:
+                    # the whole buffer goes to a helper *together with* its counter: the helper's own uses are checked with the same rule
+                    t = ci.targets[0]
+                    bound = any(bd for (tt, bd) in eng.res.call_targets(fi, node) if tt.fid == t.fid)
+                    bb = bind_call(node, t, bound and t.is_method)
+                    pb = [pn for pn, e in bb.params.items() if e is a]
+                    pc = [pn for pn, e in bb.params.items() if isinstance(e, ast.Name) and e.id == cnt]
+                    if pb and pc and not bb.errors:
+                        if (t.fid, pb[0], pc[0]) not in seen:
+                            pairs.append((t, pb[0], pc[0]))
+                        okc, how = True, "the buffer and its counter (%s, %s): uses inside %s are checked there" % (buf, cnt, t.qualname)
                 if okc:
                     rep.ok(rule, site, "%s receives %s" % (ekey(node.func), how), nontrivial=is_mean)
                 else:
